@@ -237,7 +237,7 @@ var overrides = map[string]override{
 	"k8s-multiline:only_node":               optional(30, oneOf(false, false, false, true)),
 	"k8s-multiline:allowed_pod_labels":      optional(40, oneOf([]string{"allowed_label"}, []string{"app", "zone.name"}, []string{"nope"})),
 	"k8s-multiline:allowed_node_labels":     optional(20, oneOf([]string{"zone"}, []string{})),
-	"hash:normalizer":                       optional(60, hashNormalizer),
+	"hash:normalizer":                       hashNormalizer,
 	"mask:masks":                            masks,
 	"mask:applied_metric_name":              optional(40, func(g *G) (any, bool) { return pick(g, "amn", metricNames), true }),
 	"mask:applied_metric_labels":            optional(40, func(g *G) (any, bool) { return g.nameList("aml", identNames, 1, 2), true }),
